@@ -572,6 +572,86 @@ def run_long_lived(gap, hello_every):
     return viol
 
 
+def run_dropped_peer(first_dest, pipelined):
+    """a peer that never said Hello sends a call to somebody else (for
+    which the bus drops it) and, in the same read or the next one, asks for
+    a name; then its transport closes.  Whatever the bus made of the
+    request, afterwards the peer neither owns nor waits for the name"""
+    viol = []
+    name = 'org.ex.Drop'
+    try:
+        w = fakes.BusWorld()
+        a = w.connect()
+        p = w.factory.buildProtocol(None)
+        t = fakes.FakeTransport()
+        p.makeConnection(t)
+        p.dataReceived(b'\0AUTH ANONYMOUS\r\nBEGIN\r\n')
+        t.take()
+        dest = {'peer': a.name, 'unowned': 'org.ex.Nobody',
+                'bus-first': 'org.freedesktop.DBus'}[first_dest]
+        m1 = R.encode_message(
+            R.METHOD_CALL, 1,
+            {'path': '/o', 'member': 'GetId' if first_dest == 'bus-first'
+             else 'Foo', 'destination': dest,
+             'interface': 'org.freedesktop.DBus'})
+        m2 = R.encode_message(
+            R.METHOD_CALL, 2,
+            {'path': '/org/freedesktop/DBus', 'member': 'RequestName',
+             'interface': 'org.freedesktop.DBus',
+             'destination': 'org.freedesktop.DBus'}, 'su', [name, 0])
+        try:
+            if pipelined:
+                p.dataReceived(m1 + m2)
+            else:
+                p.dataReceived(m1)
+                p.dataReceived(m2)
+        except Exception:
+            pass
+        t.lost = True
+        p.connectionLost(fakes.lost_reason())
+        a.received()
+        s = a.call_bus('GetNameOwner', 's', [name])
+        r = _reply(a, s)
+        if r is None or r['type'] != 3:
+            viol.append(('dropped-peer/still-owner',
+                         'a peer without Hello called %s, asked for %s '
+                         '(%s) and went away; GetNameOwner answers %r'
+                         % (dest, name, 'same read' if pipelined else
+                            'next read', r and (r['type'], r['body']))))
+        s = a.call_bus('RequestName', 'su', [name, 4])
+        r = _reply(a, s)
+        if r is None or r['type'] != 2 or r['body'] != [1]:
+            viol.append(('dropped-peer/name-not-free',
+                         'afterwards another client asking for %s is '
+                         'answered %r, expected "primary owner"'
+                         % (name, r and (r['type'], r['body']))))
+        s = a.call_bus('ListQueuedOwners', 's', [name])
+        r = _reply(a, s)
+        if r is None or r['type'] != 2 or r['body'] != [[a.name]]:
+            viol.append(('dropped-peer/queue',
+                         'ListQueuedOwners(%s) answers %r, expected %r'
+                         % (name, r and (r['type'], r['body']), [a.name])))
+    except Exception as e:
+        viol.append(('dropped-peer/raises-%s' % type(e).__name__,
+                     '%r' % (e,)))
+    return viol
+
+
+def _task_dropped(_):
+    res = core.Result()
+    for first_dest in ('peer', 'unowned', 'bus-first'):
+        for pipelined in (True, False):
+            res.count('states')
+            res.count('transitions', 6)
+            res.count('evaluations', 3)
+            res.count('nontrivial')
+            for t, w in run_dropped_peer(first_dest, pipelined):
+                res.violation('%s/%s' % (PROP, t), w,
+                              {'part': 'dropped',
+                               'args': [first_dest, pipelined]}, size=2)
+    return res
+
+
 def _task_long_lived(gap):
     res = core.Result()
     res.count('states')
@@ -600,7 +680,9 @@ def run(ctx):
         'listQueuedBusNameOwners) of three real client connections on a real '
         'bus. One exploration has clients that write the optional SENDER '
         'field themselves (another client\'s name, an unknown unique name, '
-        'the well-known name, their own). Long-lived bus: 254..257 / 65534..65537 connections come and '
+        'the well-known name, their own). A peer without Hello that calls '
+        'somebody else, asks for a name in the same / the next read and '
+        'goes away owns nothing afterwards. Long-lived bus: 254..257 / 65534..65537 connections come and '
         'go between the owner\'s and a contender\'s connection. '
         'non-trivial = history involving '
         'more than one client')
@@ -662,11 +744,15 @@ def run(ctx):
                     max_depth=3 if ctx.quick else 5,
                     label='client API on a composed system, 3 clients')
     from mcx import scale
+    ctx.map(_task_dropped, [0])
     ctx.map(_task_long_lived, scale.LADDER_SMALL[3:] + scale.LADDER_WORD)
     ctx.bounds = {k: v for k, v in ctx.parts.items()}
 
 
 def replay(data):
+    if data.get('part') == 'dropped':
+        return [('%s/%s' % (PROP, t), w) for t, w in
+                run_dropped_peer(*data['args'])]
     if data.get('part') == 'long-lived':
         return [('%s/%s' % (PROP, t), w) for t, w in
                 run_long_lived(*data['args'])]
